@@ -2,12 +2,15 @@ package world
 
 import (
 	"fmt"
+	"time"
 
 	"simlens/plan"
+	"simlens/simrt"
 
 	"github.com/siglens/siglens/pkg/config"
 	eswriter "github.com/siglens/siglens/pkg/es/writer"
 	"github.com/siglens/siglens/pkg/retention"
+	"github.com/siglens/siglens/pkg/segment/query"
 	vtable "github.com/siglens/siglens/pkg/virtualtable"
 	"github.com/valyala/fasthttp"
 )
@@ -63,4 +66,29 @@ func retentionOp(op *plan.Op) (interface{}, error) {
 	}
 	retention.DoRetentionBasedDeletion(config.GetCurrentNodeIngestDir(), hours, op.Org)
 	return nil, nil
+}
+
+func init() {
+	extra["cancel"] = func(op *plan.Op) (interface{}, error) {
+		qid := uint64(0)
+		if v, ok := op.Args["qid"].(float64); ok {
+			qid = uint64(v)
+		}
+		query.CancelQuery(qid)
+		return nil, nil
+	}
+	extra["qstats"] = func(op *plan.Op) (interface{}, error) {
+		return map[string]interface{}{
+			"active":  query.GetActiveQueryCount(),
+			"waiting": len(query.GetWaitingQueries()),
+			"max":     query.MAX_RUNNING_QUERIES,
+			"tasks":   simrt.LiveTasks(),
+			"dump":    simrt.Dump(),
+		}, nil
+	}
+	extra["stall"] = func(op *plan.Op) (interface{}, error) {
+		prefix, _ := op.Args["prefix"].(string)
+		n := simrt.Stall(prefix, time.Duration(op.DurMs)*time.Millisecond)
+		return map[string]interface{}{"stalled": n}, nil
+	}
 }
